@@ -761,6 +761,14 @@ for kind in ("INT", "FLOAT_CTRL", "DEF_BYTESTRING", "DEF_STRING", "INDEF_BYTESTR
         props={"C07": FUNC + ["loop"], "C20": FUNC + ["loop"], "C18": FRAME, "C13": [], "C01": SAFETY, "C17": FRAME},
         replay="tag_readonly" if kind == "TAG" else None)
 
+# the map size proof above is capacity-bounded (<= 4), so a confusion of pair COUNT and CAPACITY in the head width stays
+# inside one head class there (seed C07e).  This one takes an EMPTY map of ANY capacity (no pair storage is read):
+# cbor_serialized_size == the shortest head of the pair count (0), whatever the capacity - unbounded in the capacity.
+SER("size_map_head", "MAP", "cbor_serialized_size", top="cbor_serialized_size__top", size=True, must=8,
+    extra_defs=["VERIF_MAP_HEAD_ONLY", "VERIF_MAP_UNTYPED"], covers=2, props={"C07": FUNC + ["loop"], "C20": FUNC + ["loop"]})
+SER("map_head", "MAP", "cbor_serialize_map", must=6, covers=2, extra_defs=["VERIF_MAP_HEAD_ONLY", "VERIF_MAP_UNTYPED"],
+    props={"C07": FUNC, "C03": FUNC}, tier="experimental")
+
 # cbor_decref on a map: the loop contract over the pair storage (pointer-typed loop variable `handle++`, two child
 # releases per iteration) ran out of memory on every back end tried (MiniSat, CaDiCaL, cvc5; 24 GB).  Bounded
 # stand-in: the map loop is unwound for maps of at most 3 pairs; the other loops keep their contracts.
